@@ -39,6 +39,10 @@ pub fn run(op: &str, args: &[&str]) -> Option<String> {
                 Err(_) => "ERR".into(),
             })
         }
+        ("txhash_desc", toks) => {
+            let tx: Transaction = crate::ops_codec::parse_all(toks)?;
+            Some(format!("OK {} {}", show_hex(&tx.hash().0), show_hex(&tx.prefix.hash().0)))
+        }
         ("blockfull", [h]) => {
             let b = unhex(h)?;
             Some(match deserialize::<monero::Block>(&b) {
